@@ -17,7 +17,7 @@ TRUSTED = ['Gen/Ident.v is regenerated from intrf_circuit_operation.py / intrf_c
 ASSUMPTIONS = ['Python str hash and tuple hash are arbitrary functions (Section variables shash/thash); set/dict membership = exists an equal member (hash-consistent equality)',
                'degenerate edges A-A are outside the statement']
 RULE = ('exhaustive: all ordered pairs of channel identifiers over 3 qubits (0, 1, 300) x 4 channels; all ordered pairs of qubit ids over 5 names; '
-        'all ordered pairs of edges over 4 names (incl. swapped); all integer lists of length<=5 over 3 symbols (quick: <=4). '
+        'all ordered pairs of edges over 4 names of which one is a prefix of another (incl. swapped); all integer lists of length<=5 over 3 symbols (quick: <=4). '
         'non-trivial: pair shares a qubit / edge pair shares a qubit / list has a repeated element'
         ' unique_in_order is fed pairwise distinct objects whose equality classes are the numbers, and the driver reports WHICH object (input position) was returned.')
 CHANS = ['READOUT', 'MICROWAVE', 'FLUX', 'ALL']
@@ -33,7 +33,7 @@ def gen_cases(rng, tier):
     for a in NAMES:
         for b in NAMES:
             cases.append({'k': 'qubit', 'a': a, 'b': b})
-    n4 = NAMES[:4]
+    n4 = ['D1', 'D10', 'Z1', 'X1']       # D1 is a prefix of D10: an identifier compared through its printed form would confuse them
     for a, b, c, d in itertools.product(n4, repeat=4):
         cases.append({'k': 'edge', 'a': a, 'b': b, 'c': c, 'd': d})
     maxlen = 5 if tier == 'thorough' else 4
